@@ -80,6 +80,15 @@ theorem spellTrace_refused (m : SFMeta) (t : SpellTrace) (hp : t.probability ∈
     simp only [SpellTrace.calculate_improvement, improvementCore, hp', hk', Bool.not_true,
       Bool.false_eq_true, if_false, key _ _ _ _ hnk (by assumption)]
 
+/-- What "legal probability" is, spelled out: 100/70/30/15 on weapon-like gear (weapons and katara),
+    100/70/30 on gloves, armor, shoulder pads, accessories and machine hearts, none elsewhere. -/
+theorem legal_probabilities_spec (m : SFMeta) :
+    legalProbabilities m =
+      if branchOf m.type = Branch.weapon then [100, 70, 30, 15]
+      else if branchOf m.type = Branch.none then [] else [100, 70, 30] := by
+  unfold legalProbabilities
+  cases branchOf m.type <;> decide +kernel
+
 /-- Applying the same legal spell trace n times adds n times its improvement, in every field
     (`Stat.sum` of n copies = the improvement stacked n times). -/
 theorem spellTrace_n_times (m : SFMeta) (t : SpellTrace) (h : TraceLegal m t) (s : Stat)
@@ -195,5 +204,47 @@ theorem concrete_practical_additive (p : PracticalGearBlueprint) (h : WFP p) :
 theorem concrete_blueprint_defined (p : PracticalGearBlueprint) (h : WFP p) : ∃ s, p.build = .ok s := by
   obtain ⟨_, _, _, _, _, _, _, hb, _⟩ := concrete_practical_additive p h
   exact ⟨_, hb⟩
+
+/-! ### non-vacuity: concrete gears satisfy the hypotheses and the conclusions are non-trivial -/
+
+/-- a level-150 mage hat with 7 scroll slots (as 1005303): traceable; 100/70/30 are legal -/
+example : Traceable { type := 100, req_level := 150, req_job := 2, max_scroll_chance := 7 } ∧
+    legalProbabilities { type := 100, req_level := 150, req_job := 2, max_scroll_chance := 7 } = [100, 70, 30] := by
+  decide +kernel
+/-- … its 30 % INT spell trace gives INT 7 and MHP 120; as the 4th trace also magic attack 1 -/
+example : SpellTrace.calculate_improvement { type := 100, req_level := 150, req_job := 2, max_scroll_chance := 7 }
+      { probability := 30, stat_prop_type := .INT } = .ok { INT := 7, MHP := 120 } ∧
+    SpellTrace.calculate_improvement { type := 100, req_level := 150, req_job := 2, max_scroll_chance := 7 }
+      { probability := 30, stat_prop_type := .INT, order := 4 } = .ok { INT := 7, MHP := 120, magic_attack := 1 } := by
+  decide +kernel
+/-- a level-200 polearm: the 15 % STR trace gives attack 9 and STR 4 -/
+example : SpellTrace.calculate_improvement { type := 144, req_level := 200, req_job := 1, max_scroll_chance := 8 }
+      { probability := 15, stat_prop_type := .STR } = .ok { STR := 4, attack_power := 9 } := by
+  decide +kernel
+/-- a dragon mask (type 194, 3 scroll slots, as the shipped 1942000) is NOT traceable: the spell trace raises -/
+example : ¬ Traceable { type := 194, req_level := 20, max_scroll_chance := 3 } ∧
+    SpellTrace.calculate_improvement { type := 194, req_level := 20, max_scroll_chance := 3 }
+      { probability := 100, stat_prop_type := .STR } = .error .unboundLocalError := by
+  decide +kernel
+/-- a well-formed practical blueprint on the hat: 30 % INT trace in all 7 slots, 22 stars, INT grade 5 and
+    all-stat rank 2 (= grade 6) bonus -/
+example : WFP { «meta» := { sf := { type := 100, req_level := 150, req_job := 2, max_scroll_chance := 7 },
+                            base_stat := { INT := 40, LUK := 40, MHP := 360, MMP := 360 } },
+                spell_trace := some { probability := 30, stat_prop_type := .INT }, star := 22,
+                bonuses := [{ bonus_type := .int, grade := some 5 }, { bonus_type := .allstat, rank := some 2 }] } := by
+  decide +kernel
+/-- … builds to INT 40 + 7·7 + 117 + 8·5 = 246, MHP 360 + 7·120 + 255 = 1455, all-stat 6 % -/
+example : PracticalGearBlueprint.build
+    { «meta» := { sf := { type := 100, req_level := 150, req_job := 2, max_scroll_chance := 7 },
+                  base_stat := { INT := 40, LUK := 40, MHP := 360, MMP := 360 } },
+      spell_trace := some { probability := 30, stat_prop_type := .INT }, star := 22,
+      bonuses := [{ bonus_type := .int, grade := some 5 }, { bonus_type := .allstat, rank := some 2 }] }
+    = .ok { INT := 246, LUK := 157, MHP := 1455, MMP := 360, attack_power := 85, magic_attack := 85,
+            STR_multiplier := 6, DEX_multiplier := 6, INT_multiplier := 6, LUK_multiplier := 6 } := by
+  decide +kernel
+/-- a weapon bonus: grade-5 attack on a level-200 non-boss polearm with base attack 295 is ceil(295·7.32·4/100) = 87 -/
+example : bonusImprovement { sf := { type := 144, req_level := 200, req_job := 1, max_scroll_chance := 8 },
+                             base_stat := { attack_power := 295 } } .att 5 = .ok { attack_power := 87 } := by
+  decide +kernel
 
 end Simaple.Props.C17_Parts
